@@ -3,17 +3,6 @@ From Coq Require Import Lia ZifyN ZifyNat ZifyBool.
 From WP Require Import Base.Prelude Base.Base64 Model.Mice Proofs.MiceLemmas.
 Open Scope N_scope.
 
-Section Read.
-  Variable H : bytes -> bytes.
-
-  Lemma validate_true r p (last : bool) :
-    validate_record H r p last = true -> H (r ++ [if last then 0 else 1]) = p.
-  Proof. unfold validate_record. apply bytes_eqb_eq. Qed.
-
-  Lemma validate_refl r (last : bool) :
-    validate_record H r (H (r ++ [if last then 0 else 1])) last = true.
-  Proof. unfold validate_record. apply bytes_eqb_refl. Qed.
-
   (* the copy-out step of Read *)
   Definition deliver (s' : dec) (k : N) : dec * bytes * rstat :=
     match splitN (d_out s') k with
@@ -24,6 +13,32 @@ Section Read.
         ({| d_enc := d_enc s'; d_rs := d_rs s'; d_r := d_r s';
             d_next := d_next s'; d_out := [] |}, d_out s', ROk)
     end.
+
+  Lemma deliver_spec s k s' o st :
+    deliver s k = (s', o, st) ->
+    st = ROk /\ d_enc s' = d_enc s /\ d_rs s' = d_rs s /\ d_r s' = d_r s /\
+    d_next s' = d_next s /\ d_out s = o ++ d_out s' /\
+    (1 <= k -> d_out s <> [] -> o <> []).
+  Proof.
+    unfold deliver. destruct (splitN (d_out s) k) as [[a b]|] eqn:E; intros X;
+      inversion X as [[X1 X2 X3]]; subst s' o st; cbn [d_enc d_rs d_r d_next d_out].
+    - apply splitN_Some in E as [E1 E2].
+      repeat (split; [reflexivity|]). split; [exact E1|].
+      intros K NE C. subst a. cbn [lenN] in E2. lia.
+    - repeat (split; [reflexivity|]). split; [symmetry; apply app_nil_r|].
+      intros _ NE. exact NE.
+  Qed.
+
+Section Read.
+  Variable H : bytes -> bytes.
+
+  Lemma validate_true r p (last : bool) :
+    validate_record H r p last = true -> H (r ++ [if last then 0 else 1]) = p.
+  Proof. unfold validate_record. apply bytes_eqb_eq. Qed.
+
+  Lemma validate_refl r (last : bool) :
+    validate_record H r (H (r ++ [if last then 0 else 1])) last = true.
+  Proof. unfold validate_record. apply bytes_eqb_refl. Qed.
 
   Lemma read_unfold s k :
     read H s k =
@@ -41,21 +56,6 @@ Section Read.
     | _ => deliver s k
     end.
   Proof. reflexivity. Qed.
-
-  Lemma deliver_spec s k s' o st :
-    deliver s k = (s', o, st) ->
-    st = ROk /\ d_enc s' = d_enc s /\ d_rs s' = d_rs s /\ d_r s' = d_r s /\
-    d_next s' = d_next s /\ d_out s = o ++ d_out s' /\
-    (1 <= k -> d_out s <> [] -> o <> []).
-  Proof.
-    unfold deliver. destruct (splitN (d_out s) k) as [[a b]|] eqn:E; intros X;
-      inversion X as [[X1 X2 X3]]; subst s' o st; cbn [d_enc d_rs d_r d_next d_out].
-    - apply splitN_Some in E as [E1 E2].
-      repeat (split; [reflexivity|]). split; [exact E1|].
-      intros K NE C. subst a. cbn [lenN] in E2. lia.
-    - repeat (split; [reflexivity|]). split; [symmetry; apply app_nil_r|].
-      intros _ NE. exact NE.
-  Qed.
 
   Lemma read_trace_cons s k t acc :
     read_trace H s (k :: t) acc =
